@@ -460,11 +460,107 @@ Section Facts.
       destruct (receive_authentic codec true uri e a k Hr) as (r & s & n & p & H1 & H2 & H3 & H4 & _).
       exists r, s, n, p. repeat split; assumption.
   Qed.
+  (* ---------------- EVENT dispatch over ALL handlers of the subscription ---------------- *)
+  Notation dispatch_event := (dispatch_event V P C open loads).
+
+  (* no handler at all is invoked when [receive] fails for the (active) handlers' topic *)
+  Lemma dispatch_none : forall codec msg_topic b hs,
+    (forall h, In h hs -> h_active h = true -> forall a k, receive codec false (event_topic msg_topic h) b <> RPayload a k) ->
+    dispatch_event codec msg_topic b hs = [].
+  Proof.
+    intros codec msg_topic b hs. induction hs as [|h rest IH]; intro H; simpl; [reflexivity|].
+    destruct (h_active h) eqn:Ea; simpl.
+    - destruct (receive codec false (event_topic msg_topic h) b) as [a k| |x|u] eqn:Er; try reflexivity.
+      exfalso. apply (H h (or_introl eq_refl) Ea a k). exact Er.
+    - apply IH. intros h' Hin. apply H. right. exact Hin.
+  Qed.
+
+  (* every invocation made was for a handler whose own [receive] produced exactly that payload *)
+  Lemma dispatch_sound : forall codec msg_topic b hs i a k,
+    In (i, a, k) (dispatch_event codec msg_topic b hs) ->
+    exists h a' k', In h hs /\ h_active h = true /\ h_id h = i /\
+                    receive codec false (event_topic msg_topic h) b = RPayload a' k' /\ a = or_nil a' /\ k = or_nil k'.
+  Proof.
+    intros codec msg_topic b hs i a k. induction hs as [|h rest IH]; simpl; [intros []|].
+    destruct (h_active h) eqn:Ea; simpl.
+    - destruct (receive codec false (event_topic msg_topic h) b) as [a' k'| |x|u] eqn:Er;
+        [| intros [] | intros [] | intros []].
+      intros [E | Hin].
+      + inversion E; subst. exists h, a', k'. repeat split; try assumption. left; reflexivity.
+      + destruct (IH Hin) as (h' & a2 & k2 & H1 & H2). exists h', a2, k2. split; [right; exact H1 | exact H2].
+    - intro Hin. destruct (IH Hin) as (h' & a2 & k2 & H1 & H2). exists h', a2, k2. split; [right; exact H1 | exact H2].
+  Qed.
+
+  Lemma dispatch_cons : forall codec msg_topic b h rest,
+    dispatch_event codec msg_topic b (h :: rest) =
+    if negb (h_active h) then dispatch_event codec msg_topic b rest
+    else match receive codec false (event_topic msg_topic h) b with
+         | RPayload a k => (h_id h, or_nil a, or_nil k) :: dispatch_event codec msg_topic b rest
+         | _ => []
+         end.
+  Proof. reflexivity. Qed.
+
+  (* all handlers listen on the envelope topic (one subscription id = one topic, or the EVENT names the topic) *)
+  Definition on_topic (msg_topic : option string) (uri : string) (hs : list ehandler) : Prop :=
+    forall h, In h hs -> event_topic msg_topic h = uri.
+
+  (* round trip: every active handler, in order, gets exactly the published payload *)
+  Lemma dispatch_roundtrip : forall ra rb topic a k n s b msg_topic hs,
+    get_box ra true topic = Some s -> get_box rb false topic = Some s ->
+    originate (Some ra) topic a k n = Sent b -> on_topic msg_topic topic hs ->
+    dispatch_event (Some rb) msg_topic b hs = map (fun h => (h_id h, a, k)) (filter h_active hs).
+  Proof.
+    intros ra rb topic a k n s b msg_topic hs Ha Hb Ho Ht.
+    destruct (originate_encrypted ra topic a k n s b Ha Ho) as (p & Hd & ->).
+    induction hs as [|h rest IH]; [reflexivity|].
+    assert (IH' := IH (fun h' Hin => Ht h' (or_intror Hin))).
+    rewrite dispatch_cons. cbn [filter map].
+    destruct (h_active h); cbn [negb map]; [|exact IH'].
+    rewrite (Ht h (or_introl eq_refl)).
+    rewrite (receive_sealed rb false topic s n p (Some topic) (Some a) (Some k) Hb Hd).
+    cbn [opt_streqb]. rewrite String.eqb_refl. cbn [or_nil]. rewrite IH'. reflexivity.
+  Qed.
+
+  (* URI binding for all handlers: a ciphertext sealed for [inner] arriving on the subscription for [uri] *)
+  Lemma dispatch_uri_binding : forall r uri inner s n p a k msg_topic hs,
+    inner <> uri -> dumps (Some inner, a, k) = Some p -> get_box r false uri = Some s -> on_topic msg_topic uri hs ->
+    dispatch_event (Some r) msg_topic (Encoded (mkEnc (seal s n p) "cryptobox" (Some "json") None)) hs = [].
+  Proof.
+    intros r uri inner s n p a k msg_topic hs Hne Hd Hb Ht. apply dispatch_none.
+    intros h Hin _ a0 k0. rewrite (Ht h Hin).
+    rewrite (receive_sealed r false uri s n p (Some inner) a k Hb Hd). simpl.
+    destruct (String.eqb inner uri) eqn:E; [apply String.eqb_eq in E; contradiction | discriminate].
+  Qed.
+
+  (* tamper / wrong key for all handlers *)
+  Lemma dispatch_unopenable : forall r uri e msg_topic hs,
+    (forall s, get_box r false uri = Some s -> open s (e_payload e) = None) -> on_topic msg_topic uri hs ->
+    dispatch_event (Some r) msg_topic (Encoded e) hs = [].
+  Proof.
+    intros r uri e msg_topic hs H Ht. apply dispatch_none.
+    intros h Hin _ a0 k0. rewrite (Ht h Hin).
+    destruct (receive_unopenable r false uri e H) as [x Hx]. rewrite Hx. discriminate.
+  Qed.
+
+  (* whatever any handler receives from an encrypted EVENT is authentic for that handler's topic *)
+  Lemma dispatch_authentic : forall codec msg_topic e hs i a k,
+    In (i, a, k) (dispatch_event codec msg_topic (Encoded e) hs) ->
+    exists h r s n p a' k', In h hs /\ h_id h = i /\ codec = Some r /\
+      get_box r false (event_topic msg_topic h) = Some s /\ e_payload e = seal s n p /\
+      loads p = Some (Some (event_topic msg_topic h), a', k') /\ a = or_nil a' /\ k = or_nil k'.
+  Proof.
+    intros codec msg_topic e hs i a k Hin.
+    destruct (dispatch_sound codec msg_topic (Encoded e) hs i a k Hin) as (h & a' & k' & H1 & _ & H3 & Hr & -> & ->).
+    destruct (receive_authentic codec false (event_topic msg_topic h) e a' k' Hr) as (r & s & n & p & E1 & E2 & E3 & E4 & _).
+    exists h, r, s, n, p, a', k'. repeat split; assumption.
+  Qed.
+
   (* ---------------- ERROR direction, whole _exception_from_message: for EVERY caller-side registry ---------------- *)
   Variable MV : Type.
   Variable enc_note : string -> V.
   Variable construct : cls -> shape -> list V -> kw -> ctor_result V MV.
-  Notation efm_codec := (exception_from_message_codec V P C open loads MV enc_note construct).
+  Variable caller_hook : hook.
+  Notation efm_codec := (exception_from_message_codec V P C open loads MV enc_note construct caller_hook).
   Notation enc_exn := (enc_exn V MV enc_note).
 
   (* a ciphertext the caller cannot open: the explicit decrypt error, whatever class is registered for the URI;
@@ -513,7 +609,7 @@ Section Facts.
     (exists r s n p a k, codec = Some r /\ get_box r true error = Some s /\ e_payload e = seal s n p /\
                          loads p = Some (Some error, a, k) /\
                          efm_codec reg codec rtype req error (Encoded e) meta =
-                           exception_from_message construct reg (mkErr rtype req error a k meta)).
+                           exception_from_message construct caller_hook reg (mkErr rtype req error a k meta)).
   Proof.
     intros reg codec error e rtype req meta. unfold exception_from_message_codec.
     destruct (on_error_codec codec error (Encoded e)) as [a k|u] eqn:Eo.
@@ -531,7 +627,7 @@ Section Facts.
   Lemma roundtrip_error_registered : forall reg ra rb error a k n s b rtype req meta,
     get_box ra true error = Some s -> get_box rb false error = Some s ->
     error_body (Some rb) error a k n = Sent b ->
-    efm_codec reg (Some ra) rtype req error b meta = exception_from_message construct reg (mkErr rtype req error a k meta).
+    efm_codec reg (Some ra) rtype req error b meta = exception_from_message construct caller_hook reg (mkErr rtype req error a k meta).
   Proof.
     intros reg ra rb error a k n s b rtype req meta Ha Hb Ho. unfold exception_from_message_codec.
     rewrite (roundtrip_error ra rb error a k n s b Ha Hb Ho). reflexivity.
